@@ -113,6 +113,14 @@ pub fn custom3(word: &str) -> Vec<usize> {
         .collect()
 }
 
+fn ascii_via_custom(line: &str) -> Box<dyn Iterator<Item = Word<'_>> + '_> {
+    WordSeparator::AsciiSpace.find_words(line)
+}
+#[cfg(feature = "full")]
+fn unicode_via_custom(line: &str) -> Box<dyn Iterator<Item = Word<'_>> + '_> {
+    WordSeparator::UnicodeBreakProperties.find_words(line)
+}
+
 impl OptSpec {
     pub fn enc(&self) -> String {
         format!(
@@ -182,12 +190,20 @@ impl OptSpec {
         o = o.wrap_algorithm(self.algorithm());
         o
     }
+    /// One width in four reaches the built-in separators through `WordSeparator::Custom`
+    /// (a function that just delegates), so the Custom dispatch is exercised too; the
+    /// choice is a function of the case, hence replayable.
     pub fn separator(&self) -> WordSeparator {
+        let via_custom = self.w % 4 == 3;
         #[cfg(feature = "full")]
         if self.unicode {
-            return WordSeparator::UnicodeBreakProperties;
+            return if via_custom { WordSeparator::Custom(unicode_via_custom) } else { WordSeparator::UnicodeBreakProperties };
         }
-        WordSeparator::AsciiSpace
+        if via_custom {
+            WordSeparator::Custom(ascii_via_custom)
+        } else {
+            WordSeparator::AsciiSpace
+        }
     }
     /// like `options`, but optimal-fit goes through the recording Custom hook
     pub fn options_rec(&self) -> Options<'_> {
@@ -758,6 +774,57 @@ pub fn run(fields: &[&str]) -> String {
             let r = guarded(|| enc::s(&textwrap::refill(&filled, o2.options())));
             format!("{}\t{}\t{}", enc::s(&filled), r, fill_enc(&para, &o3))
         }
+        // the small public API around the options: defaults, builders, equality, Display
+        "api" => guarded(|| {
+            let b = |x: bool| if x { "1" } else { "0" }.to_string();
+            let o = Options::from(17usize);
+            let o2 = Options::new(5).initial_indent("> ").break_words(false).width(9);
+            let mut items = vec![
+                b(WrapAlgorithm::default() == WrapAlgorithm::new()),
+                b(WrapAlgorithm::FirstFit == WrapAlgorithm::FirstFit),
+                b(WordSeparator::AsciiSpace == WordSeparator::AsciiSpace),
+                b(WordSplitter::NoHyphenation == WordSplitter::NoHyphenation),
+                b(WordSplitter::HyphenSplitter == WordSplitter::HyphenSplitter),
+                b(WordSplitter::NoHyphenation == WordSplitter::HyphenSplitter),
+                format!("{};{};{};{};{}", o.width, enc::s(o.line_ending.as_str()), enc::s(o.initial_indent), enc::s(o.subsequent_indent), b(o.break_words)),
+                b(o.word_splitter == WordSplitter::HyphenSplitter),
+                b(o.word_separator == WordSeparator::new()),
+                b(o.wrap_algorithm == WrapAlgorithm::new()),
+                format!("{};{};{};{};{}", o2.width, enc::s(o2.line_ending.as_str()), enc::s(o2.initial_indent), enc::s(o2.subsequent_indent), b(o2.break_words)),
+                enc::s(LineEnding::CRLF.as_str()),
+            ];
+            #[cfg(not(feature = "full"))]
+            {
+                items.push(b(WrapAlgorithm::new() == WrapAlgorithm::FirstFit));
+                items.push(b(WordSeparator::new() == WordSeparator::AsciiSpace));
+            }
+            #[cfg(feature = "full")]
+            {
+                let pens = |p: &Penalties| {
+                    format!(
+                        "{}:{}:{}:{}:{}",
+                        p.nline_penalty, p.overflow_penalty, p.short_last_line_fraction, p.short_last_line_penalty, p.hyphen_penalty
+                    )
+                };
+                let mut other = Penalties::new();
+                other.hyphen_penalty += 1;
+                items.push(pens(&Penalties::default()));
+                items.push(pens(&Penalties::new()));
+                items.push(b(WrapAlgorithm::FirstFit == WrapAlgorithm::OptimalFit(Penalties::new())));
+                items.push(b(WrapAlgorithm::OptimalFit(Penalties::new()) == WrapAlgorithm::OptimalFit(Penalties::new())));
+                items.push(b(WrapAlgorithm::OptimalFit(Penalties::new()) == WrapAlgorithm::OptimalFit(other)));
+                items.push(b(WrapAlgorithm::new() == WrapAlgorithm::OptimalFit(Penalties::new())));
+                items.push(b(WordSeparator::UnicodeBreakProperties == WordSeparator::UnicodeBreakProperties));
+                items.push(b(WordSeparator::AsciiSpace == WordSeparator::UnicodeBreakProperties));
+                items.push(b(WordSeparator::new() == WordSeparator::UnicodeBreakProperties));
+                let w = [Word::from("a "), Word::from("b")];
+                items.push(match wrap_optimal_fit(&w, &[1e200], &Penalties::new()) {
+                    Err(e) => enc::s(&format!("{}", e)),
+                    Ok(_) => "no-overflow-error".to_string(),
+                });
+            }
+            items.join("\t")
+        }),
         // the std string primitives the model re-implements (Model/Chars.v)
         "std" => {
             let t = ds(fields[1]);
@@ -1264,6 +1331,7 @@ pub fn generate<W: Write>(mode: &str, r: &mut Rng, out: &mut W) {
                 enc::s(r.ps(&gaps)),
             ]
         }
+        "api" => vec!["api".into(), (if cfg!(feature = "full") { "full" } else { "min" }).into()],
         "std" => {
             let t = match r.below(3) {
                 0 => gen::text_over(r, &["a", " ", "\n", "\r", "\r\n", "\t", "\u{a0}", "\u{2028}", "\u{85}", "é", "\u{3000}", "\x0b", "\x0c"], 10),
